@@ -257,7 +257,7 @@ def model(case, version):
             why = 'data longer than segment'
         elif a_ % 2 or l_ % 2:
             why = 'odd start/length'
-        elif a_ < 0 or a_ + l_ > U64:
+        elif a_ < 0 or l_ >= U64 or a_ + l_ > U64:
             why = 'outside u64'
         elif dl_ % 2 or dl_ < 0:
             why = 'odd data length'
